@@ -33,7 +33,12 @@ Inductive rpc_outcome :=
 | GDeadline           (* context.DeadlineExceeded *)
 | GWrappedDeadline    (* fmt.Errorf("...: %w", context.DeadlineExceeded) *)
 | GStatusDeadline     (* status.Error(codes.DeadlineExceeded, ...): not errors.Is context.DeadlineExceeded *)
-| GPanic.
+| GPanic
+  (* outcomes that collide with the shedder's own values: the let-in request itself ends with ... *)
+| GOverloaded         (* load.ErrServiceOverloaded (a downstream shedder said no) *)
+| GExhausted          (* status.Error(codes.ResourceExhausted, ...): the very answer a shed request gets *)
+| GCanceled           (* context.Canceled *)
+| GPanicOverloaded.   (* panic(load.ErrServiceOverloaded) *)
 
 Inductive resolution := ResNone | ResPass | ResFail.
 
@@ -84,7 +89,7 @@ Definition rpc_wrap (v : verdict) (o : rpc_outcome) : wrap_result :=
   | VGrant =>
     let r := rpc_resolution o in
     mkWR 1 (count_res ResPass r) (count_res ResFail r) (VisRpc o)
-         (match o with GPanic => true | _ => false end)
+         (match o with GPanic | GPanicOverloaded => true | _ => false end)
   end.
 
 (* ---- a wrapped request against the shedder model ---- *)
